@@ -102,18 +102,24 @@ theorem RO_stableSort {less : Val → Val → EM Bool} (hl : ∀ a b, RO (less a
 
 theorem range_three : List.range 3 = [0, 1, 2] := by decide
 
-theorem sorted_core (F' : Facts) (h : F'.sortedInPlace = false) (a o l c : Nat) :
-    callBuiltin F' "sorted" [(none, .list false a o l c)] = (do
+theorem sorted_core (F' : Facts) (h : F'.sortedInPlace = false) (fz : Bool)
+    (hfz : fz = false ∨ F'.frozenOK "sorted" = true) (a o l c : Nat) :
+    callBuiltin F' "sorted" [(none, .list fz a o l c)] = (do
       let xs ← elems a o l
       let sorted ← stableSort (fun a b => do pure (truthy (← cmpOp F' 64 .lt a b))) xs
       mkList sorted) := by
-  simp [callBuiltin, builtinSig, bindNative, bindNative.go, bindNative.fill, validate, hasTy, asListFor, h, range_three]
+  rcases hfz with rfl | hok
+  · simp [callBuiltin, builtinSig, bindNative, bindNative.go, bindNative.fill, validate, hasTy, asListFor, h, range_three]
+  · simp [callBuiltin, builtinSig, bindNative, bindNative.go, bindNative.fill, validate, hasTy, asListFor, h, range_three, hok]
 
-theorem reversed_core (F' : Facts) (h : F'.reversedInPlace = false) (a o l c : Nat) :
-    callBuiltin F' "reversed" [(none, .list false a o l c)] = (do
+theorem reversed_core (F' : Facts) (h : F'.reversedInPlace = false) (fz : Bool)
+    (hfz : fz = false ∨ F'.frozenOK "reversed" = true) (a o l c : Nat) :
+    callBuiltin F' "reversed" [(none, .list fz a o l c)] = (do
       let xs ← elems a o l
       mkList xs.reverse) := by
-  simp [callBuiltin, builtinSig, bindNative, bindNative.go, bindNative.fill, validate, hasTy, asListFor, h]
+  rcases hfz with rfl | hok
+  · simp [callBuiltin, builtinSig, bindNative, bindNative.go, bindNative.fill, validate, hasTy, asListFor, h]
+  · simp [callBuiltin, builtinSig, bindNative, bindNative.go, bindNative.fill, validate, hasTy, asListFor, h, hok]
 
 theorem mkList_run {vs : List Val} {st st' : St} {v : Val} (h : (mkList vs).run st = .ok (v, st')) :
     st' = { st with arrays := st.arrays ++ [vs] } ∧ v = .list false st.arrays.length 0 vs.length vs.length := by
@@ -126,10 +132,11 @@ theorem mkList_run {vs : List Val} {st st' : St} {v : Val} (h : (mkList vs).run 
 
 /-- A `sorted` that copies: the heap after the call is the heap before plus one new array, and the result is that
     new array, with no spare capacity. -/
-theorem sorted_copies (F' : Facts) (h : F'.sortedInPlace = false) (a o l c : Nat) (st st' : St) (v : Val)
-    (hr : (callBuiltin F' "sorted" [(none, .list false a o l c)]).run st = .ok (v, st')) :
+theorem sorted_copies (F' : Facts) (h : F'.sortedInPlace = false) (fz : Bool)
+    (hfz : fz = false ∨ F'.frozenOK "sorted" = true) (a o l c : Nat) (st st' : St) (v : Val)
+    (hr : (callBuiltin F' "sorted" [(none, .list fz a o l c)]).run st = .ok (v, st')) :
     ∃ ys, st' = { st with arrays := st.arrays ++ [ys] } ∧ v = .list false st.arrays.length 0 ys.length ys.length := by
-  rw [sorted_core F' h, run_bind_ok] at hr
+  rw [sorted_core F' h fz hfz, run_bind_ok] at hr
   obtain ⟨xs, s1, h1, h2⟩ := hr
   have := (elems_run h1).1; subst this
   rw [run_bind_ok] at h2
@@ -140,12 +147,13 @@ theorem sorted_copies (F' : Facts) (h : F'.sortedInPlace = false) (a o l c : Nat
   exact ⟨ys, mkList_run h4⟩
 
 /-- A `reversed` that copies: one new array holding the visible elements in reverse order; nothing else changes. -/
-theorem reversed_copies (F' : Facts) (h : F'.reversedInPlace = false) (a o l c : Nat) (st st' : St) (v : Val)
-    (hr : (callBuiltin F' "reversed" [(none, .list false a o l c)]).run st = .ok (v, st')) :
+theorem reversed_copies (F' : Facts) (h : F'.reversedInPlace = false) (fz : Bool)
+    (hfz : fz = false ∨ F'.frozenOK "reversed" = true) (a o l c : Nat) (st st' : St) (v : Val)
+    (hr : (callBuiltin F' "reversed" [(none, .list fz a o l c)]).run st = .ok (v, st')) :
     ∃ xs, st.arrays[a]? = some xs ∧
       st' = { st with arrays := st.arrays ++ [((xs.drop o).take l).reverse] } ∧
       v = .list false st.arrays.length 0 ((xs.drop o).take l).reverse.length ((xs.drop o).take l).reverse.length := by
-  rw [reversed_core F' h, run_bind_ok] at hr
+  rw [reversed_core F' h fz hfz, run_bind_ok] at hr
   obtain ⟨ys, s1, h1, h2⟩ := hr
   obtain ⟨hs, xs, hx, hy⟩ := elems_run h1
   subst hs; subst hy
